@@ -51,7 +51,7 @@ def run(ctx, ck) -> None:
         if p.exit != 'return':
             continue
         keys = [t for e, pol in p.conds() if pol for t in [term(e)] if t[0] == 'cmp' and t[1] == 'eq' and ('attr', S, 'method') in (t[2], t[3])]
-        rt = term(p.node.value)
+        rt = term(p.node.value, path_env(p))
         if keys and rt[0] == 'attr' and rt[1] == S:
             k = keys[-1]
             lit = k[3] if k[2] == ('attr', S, 'method') else k[2]
